@@ -19,6 +19,8 @@ ASSUMPTIONS = ["Go timers fire, the scheduler eventually runs an enabled gorouti
 
 def corpus():
     return [
+        "pool.cancelledstart 200 30",          # D24: a users pool started on a context that has already ended starts nothing
+        "pool.cancelledstart 3000 4",
         "run prop=C05 mode=file dur=3000 conc=2 file=u:1500:20000 cancel=2 body=1",      # C05k: cancelled while a large stage is still building its pool
         "run prop=C05 mode=file dur=3000 conc=2 file=u:1500:20000 cancel=1 body=1",
         "run prop=C05 mode=file dur=3000 conc=2 file=u:1500:30000 cancel=4 body=1",
